@@ -22,6 +22,7 @@ type c07Case struct {
 	Empty string `json:"empty"`
 	Other string `json:"other"`          // the well-typed partner operand (operators)
 	Recv  string `json:"recv,omitempty"` // fn: another receiver for which the well-typed call evaluates to a value
+	Multi int    `json:"multi,omitempty"` // fn: the other argument positions hold collections of this many items of their kind
 }
 
 var c07Empties = []string{"{}", "Patient.photo", "%none", "%nilcoll"}
@@ -70,6 +71,12 @@ func c07Enum(yield func(c07Case)) {
 			for n := f.Min; n <= f.Max; n++ {
 				for pos := -1; pos < n; pos++ {
 					yield(c07Case{Kind: "fn", Name: f.Name, N: n, Pos: pos, Empty: e})
+					if pos >= 0 && n >= 2 {
+						// the empty argument decides, whatever the other arguments are: also next to multi-item ones
+						for _, k := range []int{2, 3, 4} {
+							yield(c07Case{Kind: "fn", Name: f.Name, N: n, Pos: pos, Empty: e, Multi: k})
+						}
+					}
 				}
 				// the same argument positions under every other receiver (other type, other
 				// cardinality) for which the call with well-typed arguments yields a value
@@ -123,6 +130,15 @@ func c07Source(c c07Case) string {
 	args = args[:c.N]
 	if c.Recv != "" {
 		recv = c.Recv
+	}
+	if c.Multi > 0 {
+		for i := range args {
+			if strings.HasPrefix(args[i], "'") {
+				args[i] = fmt.Sprintf("%%strs.take(%d)", c.Multi)
+			} else {
+				args[i] = fmt.Sprintf("%%ints.take(%d)", c.Multi)
+			}
+		}
 	}
 	if c.Pos == -1 {
 		recv = e
